@@ -6,6 +6,7 @@
 import CosetProofs.HeaderFields
 import CosetProofs.HeaderConverse
 import CosetProofs.Props.C12
+import CosetProofs.Cbor.Encodings
 namespace Coset.Props.C08
 open Coset Coset.Spec
 
@@ -105,6 +106,26 @@ theorem counter_signature_shape (d : Nat) (sf : Value → Res CoseSignature) (v 
 theorem depends_only_on_value (b1 b2 : Bytes) (v : Value) (h1 : readToValue b1 = .ok v) (h2 : readToValue b2 = .ok v) :
     fromSlice hdrFromValue b1 = fromSlice hdrFromValue b2 := by simp [fromSlice, h1, h2]
 
+/-- … "not on how it was encoded", from the encodings themselves: any two well-formed encodings of one data-model value — whatever the
+    width of each head, definite or indefinite lengths, however strings are chunked, integers plain or as bignum tags, floats in any
+    width (`CosetSpec.Encodings`) — give the same outcome, namely that of the value. -/
+theorem any_encoding (v : Value) (b1 b2 : Bytes) (h1 : Spec.Encodes v b1) (h2 : Spec.Encodes v b2) (hd : Cbor.depthOf v ≤ Cbor.recursionLimit) :
+    fromSlice hdrFromValue b1 = fromSlice hdrFromValue b2 ∧ fromSlice hdrFromValue b1 = hdrFromValue v :=
+  ⟨fromSlice_encoding_independent _ v b1 b2 h1 h2 hd, fromSlice_of_encodes _ v b1 h1 hd⟩
+
+/-- two quite different encodings of `{1: -7, 4: h'3131'}`: shortest-form definite map, and an indefinite-length map with a two-byte
+    key head and the byte string split into two chunks; both are encodings of that value in the sense of `Encodes`. -/
+def hdrValue : Value := .map [(.int 1, .int (-7)), (.int 4, .bytes [0x31, 0x31])]
+def hdrEnc1 : Spec.E := .map (some .w0) [(.pos .w0 1, .neg .w0 6), (.pos .w0 4, .bstr .w0 [0x31, 0x31])]
+def hdrEnc2 : Spec.E := .map none [(.pos .w1 1, .neg .w2 6), (.pos .w0 4, .bstrI [(.w0, [0x31]), (.w1, [0x31])])]
+example : hdrEnc1.bytes = [0xa2, 0x01, 0x26, 0x04, 0x42, 0x31, 0x31] ∧
+    hdrEnc2.bytes = [0xbf, 0x18, 0x01, 0x39, 0x00, 0x06, 0x04, 0x5f, 0x41, 0x31, 0x58, 0x01, 0x31, 0xff, 0xff] := by decide
+example : Spec.Encodes hdrValue hdrEnc1.bytes ∧ Spec.Encodes hdrValue hdrEnc2.bytes := by
+  refine ⟨⟨hdrEnc1, ?_, by simp [hdrEnc1, hdrValue, Spec.E.value, Spec.E.valueP], rfl⟩,
+    ⟨hdrEnc2, ?_, by simp [hdrEnc2, hdrValue, Spec.E.value, Spec.E.valueP, Spec.chunkContent], rfl⟩⟩
+  · simp [hdrEnc1, Spec.E.wf, Spec.E.wfP, Spec.W.fits]
+  · simp [hdrEnc2, Spec.E.wf, Spec.E.wfP, Spec.W.fits, Spec.chunksFit]
+
 /-- non-vacuity: all seven standard parameters plus two extras are accepted; one violated rule each is rejected. -/
 example : (fromSlice hdrFromValue [0xa2, 0x01, 0x26, 0x04, 0x42, 0x31, 0x31]).isOk = true := by decide +kernel
 example : (hdrFromValue (.map [(.int 1, .int (-7)), (.int 2, .array [.int 1]), (.int 3, .text [0x61, 0x2f, 0x62]), (.int 4, .bytes [1]),
@@ -189,5 +210,6 @@ example : (hdrFromValue (.map [(.int 3, .text [0x20, 0x61, 0x2f, 0x62])])).errKi
 #print axioms not_a_map_rejected
 #print axioms counter_signature_shape
 #print axioms depends_only_on_value
+#print axioms any_encoding
 
 end Coset.Props.C08
